@@ -60,8 +60,13 @@ def gen_source_unit(sc, sidecar_path, repo):
     # the fn body must be just the create call (no other statements that could emit), unless the sidecar says that captured state
     # is prepared first (`allow_outer_lets`)
     stmts = rxprep.split_statements(body.kids)
+    eager_call = None
     if len(stmts) != 1 and not sc.get('allow_outer_lets'):
         sk_problems.append('fn %s has statements besides Observable::create(..)' % sc['fn'])
+        for st in stmts[:-1]:
+            for k, t in enumerate(st):
+                if t.kind == 'ident' and t.text in sc.get('captures', {}) and k + 1 < len(st) and st[k + 1].is_group('(') and not (k > 0 and st[k - 1].is_p('.')):
+                    eager_call = t.text
     if sc.get('allow_outer_lets'):
         for st in stmts[:-1]:
             a = rxprep._alias(st) if st and st[0].is_id('let') else None
@@ -76,12 +81,12 @@ def gen_source_unit(sc, sidecar_path, repo):
         cl = rxprep.Closure(cl.toks, cl.params, inner[k], cl.is_move)
     captures = sc.get('captures', {})
     try:
-        ex = rxprep.rewrite_body(cl, sk, src, op, captures, {})
+        ex = rxprep.rewrite_body(cl, sk, src, op, captures, {}, allow_calls=tuple(sc.get('allow_calls', [])))
     except NotExtractable as e:
         raise UnitError('not_extractable', '%s: %s' % (op, e))
     pname = ex.params[0][0]
     tout = sc.get('out', 'Item')
-    params = ['%s: &mut %s' % (c, t) for c, t in cells.items()] + ['%s: %s' % (c, t) for c, t in captures.items()] + ['%s: &mut ObsModel<%s>' % (pname, tout)]
+    params = ['%s: &mut %s' % (c, t) for c, t in cells.items()] + ['%s: %s' % (c, t) for c, t in captures.items()] + ['%s: &mut ObsModel<%s>' % (pname, tout)] + sc.get('ghost_params', [])
     def subst(t):
         return t.replace('$s', pname)
     req = ['old(%s).wf()' % pname] + [subst(x) for x in sc.get('requires', [])]
@@ -105,6 +110,7 @@ def gen_source_unit(sc, sidecar_path, repo):
     meta = [{'fn': fn_name, 'file': sc['file'], 'line': rxprep.line_of(src, ex.span[0]), 'span': list(ex.span),
              'sha256': ex.sha256, 'replacements': ex.replacements, 'loops': ex.loops}]
     return {'op': op, 'text': text, 'twins': twin_text, 'facts': {'create_param': pname}, 'skeleton_problems': sk_problems,
+            'definite_facts': {'work_at_subscription_time': (eager_call is None, 'the captured function `%s` is called when the observable is BUILT, outside the closure passed to Observable::create: its result is shared by every subscription instead of being computed per subscription' % eager_call)},
             'outer_cells': [], 'extracted': meta, 'props': sc.get('props', []), 'known_fail': {},
             'fn_names': [fn_name], 'twin_names': [fn_name + '_twin']}
 
@@ -295,8 +301,18 @@ def gen_multi_unit(sc, sidecar_path, repo):
     text = prelude + '\nverus! {\n// ---- specification (contracts/%s) ----\n%s\n// ---- extracted from /repo ----\n%s\n} // verus!\nfn main() {}\n' % (
         os.path.basename(sidecar_path), sc.get('spec', ''), '\n'.join(fns))
     twin_text = prelude + '\nverus! {\n%s\n%s\n} // verus!\nfn main() {}\n' % (sc.get('spec', ''), '\n'.join(twins))
+    definite = {'prepare_before_subscribe': (not late_registration, 'an upstream observer is registered with the controller only after another input has already been subscribed: an input that signals synchronously ends the subscription before the late observer exists, and that observer is never torn down')}
+    if sc.get('subscribe_order'):
+        # the receivers of the inner_subscribe calls, in textual order, e.g. ["trigger", "source"]: the gate must be listening before
+        # a cold source runs to completion inside its own subscribe call
+        recv = []
+        for par, idx, g in rxprep.find_calls(body.kids, 'inner_subscribe'):
+            if idx >= 2 and par[idx - 1].is_p('.') and par[idx - 2].kind == 'ident':
+                recv.append(sk.canon(par[idx - 2].text))
+        ok = recv == sc['subscribe_order']
+        definite['subscribe_order'] = (ok, 'the inputs are subscribed in the order %s, the contract needs %s (a trigger that signals synchronously must be subscribed before a cold source runs)' % (recv, sc['subscribe_order']))
     return {'op': op, 'text': text, 'twins': twin_text, 'facts': skeleton_facts(sk, sc, src), 'skeleton_problems': sk_problems,
-            'definite_facts': {'prepare_before_subscribe': (not late_registration, 'an upstream observer is registered with the controller only after another input has already been subscribed: an input that signals synchronously ends the subscription before the late observer exists, and that observer is never torn down')},
+            'definite_facts': definite,
             'outer_cells': list(sk.outer_cells), 'extracted': meta, 'props': sc.get('props', []), 'known_fail': {},
             'fn_names': fn_names, 'twin_names': [m['fn'] + '_twin' for m in meta if not m['fn'].endswith('_c06')]}
 
@@ -547,12 +563,16 @@ def gen_unit(sidecar_path: str, repo: str) -> dict:
         if which in ('error', 'complete') and sc.get('c06_terminal_ends', True) and c06 is not None:
             c06 = ['!final(sctl).sub@ && final(sctl).ups@ =~= Set::<int>::empty()'] + c06
         if c06 and sc.get('c06', True):
-            f6 = header + 'fn %s_c06(%s)\n    requires\n%s    ensures\n%s{\n' % (fn_name, ', '.join(params), _fmt_list(req), _fmt_list(['final(sctl).wf()'] + c06))
-            if pre:
-                f6 += '    proof { %s }\n' % pre
+            req6 = [subst(x) for x in hc['c06_requires']] if 'c06_requires' in hc else req
+            f6 = header + 'fn %s_c06(%s)\n    requires\n%s    ensures\n%s{\n' % (fn_name, ', '.join(params), _fmt_list(req6), _fmt_list(['final(sctl).wf()'] + c06))
+            own = 'c06_requires' in hc
+            pre6 = hc.get('c06_proof_pre', '') if own else pre
+            post6 = hc.get('c06_proof', '') if own else post
+            if pre6:
+                f6 += '    proof { %s }\n' % pre6
             f6 += '    let _unit: () = /*BEGIN-EXTRACTED*/ %s /*END-EXTRACTED*/;\n' % body
-            if post:
-                f6 += '    proof { %s }\n' % post
+            if post6:
+                f6 += '    proof { %s }\n' % post6
             f6 += '}\n'
             fns.append(f6)
             extracted_meta.append({'fn': fn_name + '_c06', 'file': sc['file'], 'line': rxprep.line_of(src, ex.span[0]),
